@@ -31,6 +31,9 @@ ASSUMPTIONS = [
     "an isolated pulse is surrounded by zero input: in fall-seq the detuning is only checked when the pulse is preceded by "
     "a delay of 3 rise times (at the very start of a sequence the sampler holds the first detuning value before t=0); in "
     "EOM mode only the amplitude is checked (the detuning rests at detuning_off, not at zero)",
+    "the 0.6%-of-peak figure is the Gaussian tail 0.48/bw beyond the padded window while the accounted rise time is "
+    "int(0.48/bw*1e3): when the fall time is the full two rise times and 480/bw is not an integer, an excess confined to the "
+    "first 2 ns after tf+fall_time is gray (observed up to 0.9% of the peak at 100 MHz, rise time 4 instead of 4.8 ns)",
     "the tail is observed for 3 rise times after the pulse (input time >= 2 rise times beyond tf+fall_time is < 1e-9 of the peak)",
     "prog: histories in which a raising call left a partial effect are set aside (C09 reports them); sequences whose plain "
     "sample(seq) raises are set aside (C06 reports them)",
@@ -323,9 +326,9 @@ def check_tail(ctx, out: np.ndarray, t0: int, t1: int, peak: float, what: str, s
             return
         i = t0 + int(np.argmax(seg))
         ctx.violation("fall-time", f"{route}: {what} output is {out[i]!r} at t = {i} ns, {i - t0} ns after tf + fall_time = {t0}; "
-                      f"bound max(0.01, 0.006*{peak:.6g}) = {bound:.6g} (bw={bw}, duration={d}, input signs: {sign}, "
+                      f"bound max(0.01, 0.006*{peak:.6g}) = {bound:.6g} ({mode} bw={bw}, duration={d}, input signs: {sign}, "
                       f"fall time {'= 2 rise times' if saturated else '< 2 rise times'})",
-                      f"tail-above-bound:{what}:{sign}:{mode}:{'saturated' if saturated else 'threshold'}")
+                      f"tail-above-bound:{what}:{sign}:{'saturated' if saturated else 'threshold'}")
 
 
 def case_fall_wf(ctx, rng):
